@@ -237,8 +237,8 @@ theorem step_now_mono (s : SlotBelt) (op : Op) : s.now ≤ (s.step op).1.now := 
     intro s' f; rw [f.now]; exact Nat.le_refl _
   unfold SlotBelt.step
   cases op with
-  | reservePut p => exact hf _ (reservePut_f5 _ p)
-  | reserveGet p => exact hf _ (reserveGet_f5 _ p)
+  | reservePut p => exact hf _ (reservePutP_f5 _ p 0)
+  | reserveGet p => exact hf _ (reserveGetP_f5 _ p 0)
   | reservePutP p pr => exact hf _ (reservePutP_f5 _ p pr)
   | reserveGetP p pr => exact hf _ (reserveGetP_f5 _ p pr)
   | put p t x =>
